@@ -158,8 +158,8 @@ Definition hall_matrix_symbol (s : str) (pos : Z) (prev : Z) : hres (op * Z) :=
         let r2 := if princ =? 120 then alter_order r1 2 0 1
                   else if princ =? 121 then alter_order r1 1 2 0 else r1 in
         if negb (hs_frac st =? 0) then
-          (* op.tran[principal_axis - 'x'] += DEN / N * fractional_tran *)
-          if princ =? 0 then HOob
+          (* op.tran[principal_axis - 'x'] += DEN / N * fractional_tran; rejected without an axis *)
+          if princ =? 0 then HFail
           else HOk (mkOp r2 (add_tran_at (hs_tr st) (princ - 120) (cdiv DEN n * hs_frac st)) 32, n)
         else HOk (mkOp r2 (hs_tr st) 32, n)
       end
